@@ -198,6 +198,7 @@ pub(crate) mod verif_probe {
                     out
                 };
                 let mut nreq = 0usize;
+                let mut tables_created = false;
                 let mut after_copy: Vec<String> = vec![];
                 // results around pgcat's 8 KiB relay threshold (see MockPg.big_rows)
                 let big_rows = |up: &str, n: usize| -> Vec<Vec<u8>> {
@@ -303,6 +304,7 @@ pub(crate) mod verif_probe {
                                     }
                                     else if u == "DISCARD ALL" { t.dirty_set = false; t.role_set = false; t.sql_prepared = false; t.named = 0; prepared.clear(); deliver.push(pmsg(b'C', b"DISCARD ALL\0")); }
                                     else if u == "DEALLOCATE ALL" { t.sql_prepared = false; t.named = 0; prepared.clear(); deliver.push(pmsg(b'C', b"DEALLOCATE ALL\0")); }
+                                    else if u.starts_with("CREATE TABLE") { tables_created = true; deliver.push(pmsg(b'C', b"CREATE TABLE\0")); }
                                     else if u.starts_with("PREPARE ") { if t.status == b'I' { t.sql_prepared = true; } deliver.push(pmsg(b'C', b"PREPARE\0")); }
                                     else if u.starts_with("COPY ") && u.contains("FROM STDIN") { t.copy_in = true; after_copy = stmts[si + 1..].to_vec(); deliver.push(pmsg(b'G', b"\0\0\0")); copy_started = true; break; }
                                     else if u.starts_with("COPY ") && u.contains("TO STDOUT") {
@@ -332,9 +334,17 @@ pub(crate) mod verif_probe {
                                 t.unsynced = true;
                                 if !ignore_till_sync {
                                     match code {
-                                        b'P' => { if body.first().copied().unwrap_or(0) != 0 { t.named += 1; }
-                                                  let cs = cstrings(&body, 2); prepared.insert(cs[0].clone(), cs[1].clone());
-                                                  pending.push(pmsg(b'1', b"")); }
+                                        b'P' => { let cs = cstrings(&body, 2);
+                                                  if String::from_utf8_lossy(&cs[1]).to_ascii_lowercase().contains("notyet") && !tables_created {
+                                                      // a statement over a relation that does not exist (yet): the Parse itself is rejected
+                                                      pending.push(pmsg(b'E', b"SERROR\0C42P01\0Mrelation \"notyet\" does not exist\0\0"));
+                                                      if t.status != b'I' { t.status = b'E'; }
+                                                      ignore_till_sync = true;
+                                                  } else {
+                                                      if body.first().copied().unwrap_or(0) != 0 { t.named += 1; }
+                                                      prepared.insert(cs[0].clone(), cs[1].clone());
+                                                      pending.push(pmsg(b'1', b""));
+                                                  } }
                                         b'B' => { let cs = cstrings(&body, 2);
                                                   if !prepared.contains_key(&cs[1]) { pending.push(pmsg(b'E', b"SERROR\0C26000\0Mprepared statement does not exist\0\0")); ignore_till_sync = true; }
                                                   else { portals.insert(cs[0].clone(), cs[1].clone()); pending.push(pmsg(b'2', b"")); } }
